@@ -228,8 +228,9 @@ def check_transition(lim, pool, t, steps_src, st, pre, taint):
                             what = "miss"
                         else:
                             what = "wrong-value"
+                        # (kinds that met in this class: the probe, what is / was stored, the operation's keys)
                         problems.append(([cl], "lookup", "%s:%s" % (path, what), [pool.kind(i + 1)],
-                                         [cvl.kind(k) for k in stored.get(cl, [])],
+                                         [cvl.kind(k) for k in stored.get(cl, []) + pre_stored.get(cl, [])] + own_in([cl]),
                                          "%s gives %s, specification expects %s" % (exprs[5 + 5 * i + PATHS.index(path)], json.dumps(got), json.dumps(exp[path]))))
     bad = set()
     for classes, group, detail, own, others, text in problems:
